@@ -10,6 +10,14 @@ package vgis3
 //@ func generateUUID
 //@   property C33
 //@   at call fmt.Sprintf#2 assert [random] freshBytes(b)
+//@   at call fmt.Sprintf#2 assert [allbytes] len(b) == 16 && len(arg1) == 5 &&
+//@       typeof(arg1[0]) == []byte && typeof(arg1[1]) == []byte && typeof(arg1[2]) == []byte && typeof(arg1[3]) == []byte && typeof(arg1[4]) == []byte &&
+//@       arr(as(arg1[0], "[]byte")) == arr(b) && arr(as(arg1[1], "[]byte")) == arr(b) && arr(as(arg1[2], "[]byte")) == arr(b) && arr(as(arg1[3], "[]byte")) == arr(b) && arr(as(arg1[4], "[]byte")) == arr(b) &&
+//@       off(as(arg1[0], "[]byte")) == off(b) && len(as(arg1[0], "[]byte")) == 4 &&
+//@       off(as(arg1[1], "[]byte")) == off(b) + 4 && len(as(arg1[1], "[]byte")) == 2 &&
+//@       off(as(arg1[2], "[]byte")) == off(b) + 6 && len(as(arg1[2], "[]byte")) == 2 &&
+//@       off(as(arg1[3], "[]byte")) == off(b) + 8 && len(as(arg1[3], "[]byte")) == 2 &&
+//@       off(as(arg1[4], "[]byte")) == off(b) + 10 && len(as(arg1[4], "[]byte")) == 6
 //@   establishes uniqueText(result)
 
 // Upload: the object key is the configured prefix followed by a fresh unique part.
